@@ -121,13 +121,6 @@ Definition mk_reader (script : cval) (data : bytes) : option (option rstate * bo
   end.
 
 (* ---------- sequential runs ---------- *)
-(* in-place: n := Binary.WriteX(buf[off:], v); off += n *)
-Fixpoint w_seq (buf : bytes) (off : N) (its : list item) : res (bytes * list N) :=
-  match its with
-  | [] => Ok (buf, [])
-  | it :: r => do (b1, n) <- w_at buf off it; do (b2, ns) <- w_seq b1 (off + n) r; Ok (b2, n :: ns)
-  end.
-
 Definition a_seq (buf : bytes) (its : list item) : bytes := fold_left a_item its buf.
 
 (* buffer reader: v, l, err := Binary.ReadX(buf[off:]); off += l; stop at the first error *)
